@@ -821,6 +821,8 @@ class Interp:
                 nd_ = len(shp) if isinstance(shp, (tuple, list)) else (1 if isinstance(shp, (int, Sym)) and not (isinstance(shp, Sym) and shp.length) else (shp.length if isinstance(shp, Sym) else None))
                 return Sym('%s(%s)' % (nm, ', '.join([show(a) for a in args] + ['%s=%s' % (k, show(v)) for k, v in kwargs.items()])), attrs={'__ndim__': nd_},
                            struct=('call', nm, tuple(args), dict(kwargs), f))
+            if nm == 'itertools.count' and len(args) <= 2 and all(isinstance(a, int) for a in args):
+                return _Counter(*(list(args) + [0, 1][len(args):]))
             if nm in _OPERATOR and len(args) == 2 and not kwargs:
                 return self.binop(_OPERATOR[nm](), args[0], args[1], node)
             if nm in ('functools.reduce', 'reduce') and len(args) in (2, 3) and not kwargs:
@@ -888,6 +890,17 @@ class Env:
 
     def delete(self, nm):
         self.vars.pop(nm, None)
+
+
+class _Counter:
+    """itertools.count(start, step)"""
+    def __init__(self, start=0, step=1):
+        self.value, self.step = start, step
+
+    def take(self):
+        v = self.value
+        self.value += self.step
+        return v
 
 
 class _Method:
@@ -1088,6 +1101,18 @@ def _b_sum(it, args, kw):
     return Sym('sum(%s)' % show(args[0]))
 
 
+def _b_next(it, args, kw):
+    if args and isinstance(args[0], _Counter):
+        return args[0].take()
+    if args and isinstance(args[0], list) and args[0]:
+        return args[0].pop(0)
+    raise Undecidable('next(%s)' % ', '.join(show(a) for a in args))
+
+
+def _b_iter(it, args, kw):
+    return list(it.iterate(args[0], None))
+
+
 def _b_callable(it, args, kw):
     return isinstance(args[0], (FuncRef, BoundCall)) or Sym('callable(%s)' % show(args[0]))
 
@@ -1096,7 +1121,7 @@ _OPERATOR = {'operator.mul': ast.Mult, 'operator.add': ast.Add, 'operator.sub': 
              'operator.pow': ast.Pow, 'operator.mod': ast.Mod}
 
 _BUILTIN_FUNCS = {
-    'len': _b_len, 'range': _b_range, 'slice': _b_slice, 'tuple': _b_seq(tuple), 'list': _b_seq(list), 'dict': _b_dict, 'enumerate': _b_enumerate,
+    'len': _b_len, 'range': _b_range, 'slice': _b_slice, 'next': _b_next, 'iter': _b_iter, 'tuple': _b_seq(tuple), 'list': _b_seq(list), 'dict': _b_dict, 'enumerate': _b_enumerate,
     'zip': _b_zip, 'map': _b_map, 'min': _b_minmax(min), 'max': _b_minmax(max), 'isinstance': _b_isinstance, 'int': _b_conv(int),
     'float': _b_conv(float), 'str': _b_conv(str), 'bool': _b_conv(bool), 'sorted': _b_sorted, 'sum': _b_sum, 'callable': _b_callable,
     'abs': _b_conv(abs), 'reversed': lambda it, a, k: list(reversed(it.iterate(a[0], None))), 'set': _b_seq(tuple),
